@@ -244,11 +244,12 @@ theorem resolve_table (b r c s p : Bool)
 
 /-! ### `ref_value` with the extracted branch order and literal test -/
 
-/-- the chain of `ParentTranslator.ref_value` as it stands in exporter.py -/
+/-- the chain of `ParentTranslator.ref_value` as it stands in exporter.py (since 3bae90c the literal
+branch excludes the floats that are not finite) -/
 theorem refValue_generated (v : PyVal) :
     refValue Generated.exportLiteralTest Generated.exportLiteralTypes v Generated.exportRefValueOrder =
       if v.iface then (if v.valid then .path else .noneLit)
-      else if Generated.exportLiteralTypes.contains v.ty then .literal
+      else if (Generated.exportLiteralTypes.contains v.ty && !(v.ty == "float" && !v.finite)) then .literal
       else if v.sysmod then .importModule
       else if v.iospec then .ioData else .pickle := by
   simp [refValue, isLiteral, Generated.exportRefValueOrder, Generated.exportLiteralTest]
